@@ -40,6 +40,7 @@ def judge_any(case):
 
 def rank_group(s, ka, kb, hybrid=False):
     h = s.harness(L=1, cap_bs=max(ka * kb, 2), rank_bits=bits_for(2 * (ka + kb) + 1), hybrid=hybrid, field_bits=(3 if hybrid else 0))
+    s.ri_sites(h)
     A, _ = h.range_('A', ka, allow_any=True)
     B, _ = h.range_('B', kb, allow_any=True)
     v = h.version('v')
